@@ -515,6 +515,51 @@ def run_stub_shapes(seed: int, acc) -> int:
     return n
 
 
+def run_rpc_replay(seed: int, acc) -> int:
+    """two / three sealed requests on one connection; a later reply is replaced by the recorded sealed reply to an earlier request (same
+    call id, valid signature for the earlier sequence number): the client must reject it - replay and sequence detection are part of
+    what 'sealed by the security context' means, and the context only provides them if the client asks for them"""
+    from checks import c13
+
+    n = 0
+    for api in ("sync", "async"):
+        for sign in (True, False):
+            for nreq, victim, source in ((2, 1, 0), (3, 2, 0), (3, 2, 1), (3, 1, 0)):
+                peer = c13.Peer("scripted", 16, sign, reply_stub=b"REPLY-ONE")
+                sealed_log: t.List[bytes] = []
+                orig_feed = peer.feed
+
+                def feed(data, peer=peer, orig_feed=orig_feed, sealed_log=sealed_log, victim=victim, source=source):
+                    is_req = rpc.decode(data)["ptype"] == rpc.REQUEST
+                    if is_req:
+                        peer.reply_stub = b"REPLY-%d" % len(sealed_log) + b"x" * len(sealed_log)
+                    out = orig_feed(data)
+                    if is_req:
+                        sealed_log.append(out[0])
+                        if len(sealed_log) - 1 == victim:
+                            return [sealed_log[source]]
+                    return out
+
+                peer.feed = feed  # type: ignore[method-assign]
+                peer.client_wrap_failures = {99: "ContextExpiredError"}  # (selects exchange()'s per-request error capture; never fires)
+                case = ["rpc-replay", api, sign, nreq, victim, source]
+                try:
+                    rs, cctx = c13.exchange(api, peer, [b"req-%d" % i for i in range(nreq)], None, 0, 0)
+                except Exception as e:  # noqa: BLE001
+                    acc.violate(f"rpc-replay.exc.{type(e).__name__}", case, {"exc": repr(e)})
+                    continue
+                n += 1
+                acc.nt(tuple(case))
+                if not isinstance(rs[victim], Exception):
+                    acc.violate("rpc-replay.replayed-reply-accepted", case, {"returned": bytes(rs[victim].stub_data)[:40].hex(), "context_req": repr(getattr(cctx, "init_args", {}).get("context_req"))})
+                else:
+                    acc.outcome("rpc-replay-rejected")
+                for i in range(victim):
+                    if isinstance(rs[i], Exception):
+                        acc.violate("rpc-replay.genuine-rejected", case + [i], {"exc": repr(rs[i])})
+    return n
+
+
 def run_overlap(seed: int, acc) -> int:
     """two async calls in flight at once on separate connections (virtual loop, replies held back): the GetKey reply of the first call is
     replaced by an unsealed one with the attacker's envelope while the other call runs - every interleaving with <= 2 deviations from
@@ -776,7 +821,7 @@ def run_rogue(seed: int, op: str, api: str, mode: str, sec: str, acc) -> None:
 
 
 def shards(tier: str, seed: int):
-    out = [["rogue"], ["stub-shapes"], ["overlap"]]
+    out = [["rogue"], ["stub-shapes"], ["overlap"], ["rpc-replay"]]
     for api in ("sync", "async"):
         for sg in (True, False):
             for part in range(4):
@@ -793,6 +838,10 @@ def shards(tier: str, seed: int):
 
 def run_shard(shard, tier, seed, acc) -> None:
     worker_init()
+    if shard[0] == "rpc-replay":
+        acc.ev(run_rpc_replay(seed, acc))
+        acc.sample({"several sealed requests on one connection": "a later reply replaced by the recorded reply to an earlier one"})
+        return
     if shard[0] == "overlap":
         acc.ev(run_overlap(seed, acc))
         acc.sample({"two async calls in flight": "the first GetKey reply is replaced by an unsealed one while the other call runs", "deviation_bound": 2})
@@ -865,6 +914,14 @@ def replay(case, seed, acc) -> None:
     acc.ev()
     if case[0] == "rogue":
         run_rogue(seed, case[1], case[2], case[3], case[4], acc)
+        return
+    if case[0] == "rpc-replay":
+        run_rpc_replay(seed, acc)
+        for k in list(acc.violations):
+            acc.violations[k] = [e for e in acc.violations[k] if e["case"][:6] == case[:6]]
+            if not acc.violations[k]:
+                del acc.violations[k]
+        acc.violation_count = sum(len(v) for v in acc.violations.values())
         return
     if case[0] == "overlap":
         run_overlap(seed, acc)
